@@ -615,6 +615,8 @@ def check_tamper(res, c, key, n, m, text, out):
             t[pos] ^= 1 << bit
             flips += 1
             try:
+                if (pos * 8 + bit) % 5 == 0:
+                    c.decrypt(bytes(out))       # the receiver opened the genuine message just before the altered copy arrives
                 r = c.decrypt(bytes(t))
             except Exception:   # noqa  rejected
                 continue
